@@ -120,6 +120,50 @@ let show_enc enc size send rt =
       (match s with Ok n -> string_of_n n | Err _ -> "ERR" | Panic _ -> "PANIC")
       (match p with Ok n -> string_of_n n | Err _ -> "ERR" | Panic _ -> "PANIC")
 
+(* ---- channel: the same single-threaded schedules as harness/subs/channel.rs, as atomic steps of the model *)
+let chan_single () =
+  let cap = p_n () in
+  let st = ref (chan_init cap) in
+  let next_id = ref 1 in
+  let out = ref [] in
+  let emit s = out := s :: !out in
+  let step o = match chan_step !st o with Some s' -> st := s'; true | None -> false in
+  (* the blocked sender runs one iteration of its wait loop after every receive *)
+  let suffix () = match !st.c_spc with
+    | SWaiting (_, _) ->
+        ignore (step OLoad);
+        (match !st.c_spc with SPush (_, _) -> ignore (step OPush); ",u" | _ -> ",b")
+    | _ -> "" in
+  let recv tag =
+    if step OPop then begin
+      ignore (step OFetchSub);
+      let id = List.nth !st.c_delivered (List.length !st.c_delivered - 1) in
+      let sfx = suffix () in emit (Printf.sprintf "%s:%d%s" tag id sfx) end
+    else if tag = "t" then begin
+      ignore (step OTryEmpty);
+      emit ("t:empty" ^ (match !st.c_spc with SWaiting (_, _) -> ",b" | _ -> "")) end
+    else emit "r:TIMEOUT" in
+  List.iter (fun op ->
+    match op.[0] with
+    | 's' ->
+        let size = n_of_string (String.sub op 1 (String.length op - 1)) in
+        (match !st.c_spc with
+         | SIdle ->
+            let id = !next_id in incr next_id;
+            ignore (step (OFetchAdd (id, size)));
+            (match !st.c_spc with SWaiting (_, _) -> ignore (step OLoad) | _ -> ());
+            (match !st.c_spc with
+             | SPush (_, _) -> ignore (step OPush); emit "s:ok"
+             | SWaiting (_, _) -> emit "s:blocked"
+             | _ -> emit "s:UNDERFLOW")
+         | _ -> emit "s:BUSY")
+    | 'r' -> recv "r"
+    | 't' -> recv "t"
+    | 'u' -> emit ("u:" ^ string_of_n !st.c_usage)
+    | 'q' -> emit (Printf.sprintf "q:%d" (List.length !st.c_queue))
+    | _ -> emit "BADOP") !toks;
+  String.concat " " (List.rev !out)
+
 let handle line =
   toks := List.filter (fun s -> s <> "") (String.split_on_char ' ' line);
   match next () with
@@ -139,6 +183,7 @@ let handle line =
           | Some (r, _) -> (match encode_response r with Ok b -> "OK " ^ hex b | _ -> "OK unencodable")
           | None -> "ERR")
       | s -> failwith ("D " ^ s))
+  | "S" -> chan_single ()
   | _ -> "BADREQ"
 
 let () =
